@@ -1,7 +1,7 @@
 (* C09 - Unsatisfiable graphs are refused, satisfiable ones accepted, never mis-generated.  (v1: refusal of cycles) *)
 From Coq Require Import List Arith Lia Bool NArith.
 Import ListNotations.
-Require Import Dfs GenU GenSound Suppliers Resolve Accept.
+Require Import Dfs GenU GenSound Suppliers Resolve Accept Reorder StructPass.
 
 Section Cycle.
 Variable succs : nat -> list nat.
@@ -67,6 +67,41 @@ Theorem C09_orphan_never_accepted : forall pm provs ss s st, In s ss -> hd_error
   Gen.assoc st pm = None -> Gen.has_field_of st ss = false -> forall r, Gen.pass2 pm provs ss <> Gen.OK r.
 Proof. exact orphan_struct_never_accepted. Qed.
 Print Assumptions C09_orphan_never_accepted.
+
+(* the first pass (function providers, bindings, values) accepts exactly the provider lists in which no two different
+   positions supply the same type *)
+Theorem C09_first_pass_accepts_iff_unambiguous : forall ps, (exists pm, Gen.pass1 [] 0 ps = Gen.OK pm) <-> ~ clash ps.
+Proof. exact pass1_accepts_iff. Qed.
+Print Assumptions C09_first_pass_accepts_iff_unambiguous.
+
+(* "Conversely ... whose struct expansions all have a source is accepted": when every expansion has a source - a provider of
+   the first pass or, transitively, a field of another expanded struct -, no field type is supplied twice or already
+   supplied, and no struct has a field of its own struct type, the second pass accepts; and it does so for every order in
+   which the expansions are declared *)
+Theorem C09_structs_with_sources_accepted : forall pm provs ss ss', Permutation.Permutation ss ss' ->
+  NoDup (allfields ss) -> (forall t, In t (allfields ss) -> Gen.assoc t pm = None) ->
+  (forall s, In s ss -> exists st, stype s = Some st /\ ~ In st (ftypes s)) ->
+  (forall s, In s ss -> reach pm ss s) ->
+  exists r, Gen.pass2 pm provs ss' = Gen.OK r.
+Proof. exact structs_accepted_in_any_order. Qed.
+Print Assumptions C09_structs_with_sources_accepted.
+
+(* both passes together: an unambiguous provider list whose expansions have sources has a provider map (dpm), which is the
+   hypothesis of C09_acyclic_accepted below *)
+Theorem C09_unambiguous_with_sources_has_provider_map : forall d pm1,
+  ~ clash (Gen.d_provs d) -> Gen.pass1 [] 0 (Gen.d_provs d) = Gen.OK pm1 ->
+  let ss := filter Gen.isstruct (Gen.d_provs d) in
+  NoDup (allfields ss) -> (forall t, In t (allfields ss) -> Gen.assoc t pm1 = None) ->
+  (forall s, In s ss -> exists st, stype s = Some st /\ ~ In st (ftypes s)) ->
+  (forall s, In s ss -> reach pm1 ss s) ->
+  exists r, dpm d = Some r.
+Proof. exact with_sources_has_provider_map. Qed.
+Print Assumptions C09_unambiguous_with_sources_has_provider_map.
+
+(* the retrying expansion loop always comes to a verdict within its fuel: "out of fuel" (code 4) is not an outcome *)
+Theorem C09_struct_pass_total : forall pm provs ss, Gen.pass2 pm provs ss <> Gen.Err 4.
+Proof. exact pass2_fuel_suffices. Qed.
+Print Assumptions C09_struct_pass_total.
 
 (* acceptance, second half: once the model of NewGraph has accepted a declaration, statement building cannot fail
    ("no initial pools found" is unreachable) - the injector is emitted. (C09_acyclic_accepted below is the first half.) *)
